@@ -844,6 +844,37 @@ Section WithHash.
     f_equal. apply NT. assumption.
   Qed.
 
+  (* nothing is derivable for an index the store has not reached yet *)
+  Lemma lookup_from_none st val to :
+    Inv st val -> to <= st_index st ->
+    forall n i, lookup_from n i st to = None.
+  Proof.
+    intros I L. induction n as [|n IH]; intros i; [reflexivity|].
+    cbn [Model.lookup_from].
+    destruct (bucket_get (buckets st) i) as [e0|] eqn:G0; [|apply IH].
+    destruct (inv_bucket _ _ I i e0 G0) as (_ & _ & C & D & _).
+    pose proof (inv_idx _ _ I) as LI.
+    unfold Model.derive.
+    destruct (derive_bits (el_index e0) to) as [ps|] eqn:DB; [exfalso|apply IH].
+    apply derive_bits_some in DB; [|change (2 ^ 64) with (2 ^ 48 * 2 ^ 16); lia].
+    destruct DB as [[E _]|[E _]]; [lia|].
+    assert (M : 2 ^ count_trailing_zeros (el_index e0) *
+                (to / 2 ^ count_trailing_zeros (el_index e0)) <= to)
+      by (apply N.mul_div_le, N.pow_nonzero; discriminate).
+    lia.
+  Qed.
+
+  Lemma lookup_unreceived hs (st : store) :
+    add_all new_store hs = Some st -> N.of_nat (length hs) <= start_index ->
+    forall v, N.of_nat (length hs) <= v -> v <= start_index -> lookup st v = None.
+  Proof.
+    intros A L v L1 L2. unfold Model.lookup. rewrite new_index_small by assumption.
+    destruct hs as [|d r].
+    - cbn [Model.add_all] in A. injection A as <-. reflexivity.
+    - destruct (reach_inv d _ st A L) as (val & I & X & _).
+      apply (lookup_from_none st val _ I). rewrite X. lia.
+  Qed.
+
   Lemma add_all_app : forall a b (st : store),
     add_all st (a ++ b) =
     match add_all st a with Some s => add_all s b | None => None end.
